@@ -55,6 +55,50 @@ BLANK = {"b": [], "atab": [], "pfx": [], "op": "", "t": 0, "n": 0, "c": 0, "d": 
          "names": [], "tmo": 0, "lossy": 0, "conc": [], "announce": [], "status": 0, "extra": 0}
 
 
+def logsafe(b):
+    """qsutil.c logsafe(): LF -> '/', every byte outside 33..126 and '%' -> '_'"""
+    return bytes(47 if c == 10 else (c if 33 <= c <= 126 and c != 37 else 95) for c in b)
+
+
+def parse_log_line(line, T):
+    """one line of qmail-send's activity record -> fields of a `log` event (k = kind of line)"""
+    def addr_index(text):
+        hits = [v for k, v in T.addr.items() if logsafe(k) == text]
+        return hits[0] if len(hits) == 1 else (0 if not hits else -1)
+    m = re.fullmatch(rb"status: local (\d+)/(\d+) remote (\d+)/(\d+)( exitasap)?", line)
+    if m:
+        return {"k": "status", "rc": [int(m.group(i)) for i in range(1, 5)], "extra": 1 if m.group(5) else 0}
+    if line == b"status: exiting":
+        return {"k": "exiting"}
+    m = re.fullmatch(rb"new msg (\d+)", line)
+    if m:
+        return {"k": "new", "n": T.n(int(m.group(1)))}
+    m = re.fullmatch(rb"info msg (\d+): bytes (\d+) from <(.*)> qp (\d+) uid (\d+)", line)
+    if m:
+        return {"k": "info", "n": T.n(int(m.group(1))), "pos": int(m.group(2)) % (1 << 30), "s": addr_index(m.group(3)), "extra": int(m.group(5)) % (1 << 30)}
+    m = re.fullmatch(rb"starting delivery (\d+): msg (\d+) to (local|remote) (.*)", line)
+    if m:
+        return {"k": "start", "m": int(m.group(1)) % (1 << 30), "n": T.n(int(m.group(2))), "c": 0 if m.group(3) == b"local" else 1, "a": addr_index(m.group(4))}
+    m = re.fullmatch(rb"delivery (\d+): (success|failure|deferral): (.*)", line)
+    if m:
+        return {"k": {b"success": "K", b"failure": "D", b"deferral": "Z"}[m.group(2)], "m": int(m.group(1)) % (1 << 30)}
+    m = re.fullmatch(rb"delivery (\d+): report mangled, will defer", line)
+    if m:
+        return {"k": "G", "m": int(m.group(1)) % (1 << 30)}
+    m = re.fullmatch(rb"bounce msg (\d+) qp (\d+)", line)
+    if m:
+        return {"k": "bounce", "n": T.n(int(m.group(1)))}
+    m = re.fullmatch(rb"triple bounce: discarding bounce/(\d+)", line)
+    if m:
+        return {"k": "triple", "n": T.n(int(m.group(1)))}
+    m = re.fullmatch(rb"end msg (\d+)", line)
+    if m:
+        return {"k": "end", "n": T.n(int(m.group(1)))}
+    if line.startswith(b"warning: ") or line.startswith(b"alert: "):
+        return {"k": "warn"}
+    return {"k": "other"}
+
+
 def parse_bounce_names(body):
     """recipients named in a failure notice: paragraphs '<addr>:' between the preamble (ends with a blank line)
     and the '--- Below this line' separator.  Returns (names, paragraphs)"""
@@ -96,6 +140,7 @@ def project(trace, qdir, tables=None, dbto=b"postmaster@test.example", pfx=b""):
     last_bounce_open = None
     pidrole = {}
     framer = repframe.Framer()
+    logbuf = {}
 
     def ev(op, e, **kw):
         x = dict(BLANK, op=op, t=e.get("t", 0))
@@ -143,6 +188,21 @@ def project(trace, qdir, tables=None, dbto=b"postmaster@test.example", pfx=b""):
                 ev("spawnerdied", e, c=e["chan"])
             elif op == "reaped" and e["pid"] in sendpids:
                 ev("sendexit", e, status=e["status"])
+            elif op == "qread":
+                # "<date> GMT  #<id>  <size>  <sender> [ bouncing]" then "  done\t<chan>\t<addr>" / "\t<chan>\t<addr>" lines
+                lst, cur, okp = [], 0, 1
+                for line in bytes.fromhex(e["hex"]).split(b"\n"):
+                    m_ = re.match(rb".* GMT  #(\d+)  (\d+)  <(.*)> ?( bouncing)?$", line)
+                    if m_:
+                        cur = T.n(int(m_.group(1)))
+                        lst.append([cur, -1, T.a(m_.group(3)), 1 if m_.group(4) else 0])
+                        continue
+                    m_ = re.match(rb"(  done)?\t(local|remote)\t(.*)$", line)
+                    if m_ and cur:
+                        lst.append([cur, 0 if m_.group(2) == b"local" else 1, T.a(m_.group(3)), 1 if m_.group(1) else 0])
+                    elif line.strip():
+                        okp = 0
+                ev("qread", e, recs=lst, ok=okp, status=e["status"])
             elif op == "end":
                 ev("end", e, extra=e["left"])
             elif op == "stopped":
@@ -162,6 +222,14 @@ def project(trace, qdir, tables=None, dbto=b"postmaster@test.example", pfx=b""):
                 inode_of[(d, n)] = e["ino"]
             if d == "bounce" and is_send and not e.get("creat") and e.get("acc") == 0:
                 last_bounce_open = n
+        elif c == "write" and e.get("reg") and e["res"] > 0 and is_send and (e.get("obj") or "").endswith("/verif-send.log"):
+            # the activity record: one `log` event per completed line (qmail-log(5))
+            logbuf.setdefault(pid, bytearray()).extend(bytes.fromhex(e["hex"])[: e["res"]])
+            while b"\n" in logbuf[pid]:
+                line, _, rest = bytes(logbuf[pid]).partition(b"\n")
+                logbuf[pid] = bytearray(rest)
+                kw = parse_log_line(line, T)
+                ev("log", e, **kw)
         elif c == "write" and e.get("reg") and e["res"] > 0:
             d, n = qpath(e["obj"], qdir)
             if not d:
@@ -177,8 +245,15 @@ def project(trace, qdir, tables=None, dbto=b"postmaster@test.example", pfx=b""):
             if d == "bounce" and is_send:
                 m = re.match(rb"<(.*?)>:\n", data, re.S)
                 na = m.group(1) if m else None
-                if na is not None and pfx and na not in T.addr and (pfx + b"-" + na) in T.addr:
-                    na = pfx + b"-" + na          # the record names the recipient without its virtual-domain prefix
+                if na is not None and pfx:
+                    # the record names the recipient without its virtual-domain prefix: map it back to the recipient of THIS
+                    # message as it stands in its recipient lists
+                    have = set()
+                    for dd in ("local", "remote"):
+                        fb = bytes(filedata.get(inode_of.get((dd, n)), b""))
+                        have |= {r[1:] for r in fb.split(b"\0") if r[:1] in (b"T", b"D")}
+                    if na not in have and (pfx + b"-" + na) in have:
+                        na = pfx + b"-" + na
                 ev("note", e, n=T.n(n), a=T.a(na) if na is not None else 0)
             if d in ("local", "remote"):
                 inode_of[(d, n)] = e["ino"]
